@@ -25,41 +25,57 @@ set_option maxRecDepth 1000000
 namespace Verif.Props.C16
 open Verif.Model.Options
 
-/-- **Version gate.** If the output uses a feature that is newer than the (non-zero) target edition,
-    the input already used it — for every feature, target and applicability of the rewrite. -/
-theorem version_gate (target : Nat) (f : Feature) (inputHas rw : Bool)
+/-- full statement of the version gate: if the output uses a feature that is newer than the (non-zero) target
+    edition, the input already used it — for every feature, target and applicability of the rewrite -/
+def version_gate_full : Prop :=
+  ∀ (target : Nat) (f : Feature) (inputHas rw : Bool),
+    target ≠ 0 → target < f.since → emits target f inputHas rw = true → inputHas = true
+
+/-- **Version gate** (partial; guard = K-C16-3): for every feature whose rewrite site consults the version
+    (`guardOf f` is a literal — all but the property shorthand), every target and applicability of the rewrite -/
+theorem version_gate_partial (target : Nat) (f : Feature) (inputHas rw : Bool) (g : (guardOf f).isSome = true)
     (ht : target ≠ 0) (hnew : target < f.since) (he : emits target f inputHas rw = true) :
     inputHas = true := by
   cases inputHas with
   | true => rfl
   | false =>
-    have hg : guardOf f = f.since := by cases f <;> rfl
-    simp only [emits, Bool.false_or, Bool.and_eq_true, minVersion, Bool.or_eq_true, beq_iff_eq,
-      decide_eq_true_eq, hg] at he
-    rcases he.2 with h | h
-    · exact absurd h ht
-    · omega
+    exfalso
+    cases f <;> simp [emits, gatePasses, guardOf, minVersion, Feature.since] at he g hnew <;> omega
+
+/-- **K-C16-3**: the property shorthand `{a}` (ES2015) is written for `{a:a}` whatever the target version -/
+theorem version_gate_counterexample : ¬ version_gate_full := by
+  intro h
+  exact absurd (h 5 .propertyShorthand false true (by decide) (by decide) (by decide)) (by decide)
 
 /-- target 0 means "latest": every rewrite is allowed (non-vacuity of the gate's other branch) -/
 example : emits 0 .nullish false true = true := by decide
 example : emits 2019 .nullish false true = false := by decide
 example : emits 2019 .nullish true false = true := by decide
+example : (guardOf .nullish).isSome = true ∧ (2019 : Nat) ≠ 0 ∧ 2019 < Feature.since .nullish := by decide
 
-/-- the guard sites in the source are exactly the four modelled ones, and every producer of newer syntax is
-    one of: print-through of input syntax (`?.` is only printed for nodes that carry the Optional flag — the three `no-gate`
-    sites; the one function that SETS that flag, toNullishExpr, is called inside the body of the minVersion(2020) gate), or a
-    rewrite inside the body of its gate -/
+/-- the guard sites in the source are exactly the four modelled ones (with the literals of `guardOf`), and every
+    producer of newer syntax is one of: print-through of input syntax (`?.` is only printed for nodes that carry the
+    Optional flag — the three `no-gate` sites; the one function that SETS that flag, toNullishExpr, is called inside
+    the body of the minVersion(2020) gate), a rewrite inside the body of its gate, or one of the two property-shorthand
+    sites, which do not consult the version: `minifyBinding` (a destructuring pattern, itself ES2015 syntax of the
+    input) and `minifyProperty` (an object literal: **K-C16-3**, `guardOf .propertyShorthand = none` in the model) -/
 theorem gates_ok :
     Verif.Gen.JsVersionGates.gates =
       ["jsMinifier.minifyExpr: minVersion(2015)", "jsMinifier.minifyExpr: minVersion(2016)",
        "jsMinifier.minifyStmt: minVersion(2019)", "jsMinifier.optimizeCondExpr: minVersion(2020)"] ∧
     Verif.Gen.JsVersionGates.producers =
-      ["jsMinifier.minifyAlias: minifyString allowTemplate=false", "jsMinifier.minifyAlias: minifyString allowTemplate=false",
+      ["jsMinifier.minifyAlias: minifyString allowTemplate=false",
+       "jsMinifier.minifyAlias: minifyString allowTemplate=false",
+       "jsMinifier.minifyBinding: property shorthand (name: skipped when Name.IsIdent) gate no-gate",
        "jsMinifier.minifyExpr: minifyString allowTemplate=m.o.minVersion(2015)",
        "jsMinifier.minifyExpr: write(expBytes) inside minVersion(2016)",
-       "jsMinifier.minifyExpr: write(optChainBytes) inside no-gate", "jsMinifier.minifyExpr: write(optChainBytes) inside no-gate",
-       "jsMinifier.minifyExpr: write(optChainBytes) inside no-gate", "jsMinifier.minifyPropertyName: minifyString allowTemplate=false",
-       "jsMinifier.minifyStmt: minifyString allowTemplate=false", "jsMinifier.minifyStmt: minifyString allowTemplate=false",
+       "jsMinifier.minifyExpr: write(optChainBytes) inside no-gate",
+       "jsMinifier.minifyExpr: write(optChainBytes) inside no-gate",
+       "jsMinifier.minifyExpr: write(optChainBytes) inside no-gate",
+       "jsMinifier.minifyProperty: property shorthand (name: skipped when Name.IsIdent) gate no-gate",
+       "jsMinifier.minifyPropertyName: minifyString allowTemplate=false",
+       "jsMinifier.minifyStmt: minifyString allowTemplate=false",
+       "jsMinifier.minifyStmt: minifyString allowTemplate=false",
        "jsMinifier.optimizeCondExpr: toNullishExpr inside minVersion(2020)"] := by decide
 
 /-- every CLI flag is bound to the option field its name says -/
